@@ -327,6 +327,22 @@ theorem hoisted_alias_reuse_not_distinct : ¬ (["_w", "_w"] : List String).Nodup
 theorem distinct_on_as_row_number (key : Row → Val) (t : Table) : rowNumberOne key t = firstPerKey key t :=
   rowNumberOneAux_eq key t [] [] (fun v => by simp)
 
+/-- **When is DISTINCT ON a plain SELECT DISTINCT?**  Exactly when the projection IS the ON key: then for every
+    ordered input the picked rows, projected, are the distinct key values.  With a projection that is a STRICT
+    SUBSET of the ON keys it is not (seeded regression C02-7 "subset shortcut"): ON (a, b) projecting a over
+    {(1,1), (1,2)} has two groups and returns a = 1 twice; SELECT DISTINCT a returns it once. -/
+theorem distinct_on_eq_select_distinct_iff :
+    (∀ (key : Row → Val) (t : Table), (firstPerKey key t).map key = dedupVals (t.map key)) ∧
+    ((firstPerKey (fun r => match col 0 r, col 1 r with
+                            | .int a, .int b => .int (a * 10 + b)
+                            | _, _ => .null) [[.int 1, .int 1], [.int 1, .int 2]]).map (col 0) = [.int 1, .int 1] ∧
+     dedupVals ([[Val.int 1, .int 1], [.int 1, .int 2]].map (col 0)) = [.int 1]) :=
+  ⟨fun key t => firstPerKeyAux_map_key key t [], by decide⟩
+
+/-- TABLE FACT (ast of transforms.eliminate_distinct_on, re-read every run): the transform has ONE rewrite path —
+    two `return`s (the rewritten query, the untouched expression) and it never clears DISTINCT's `on` in place -/
+theorem distinct_on_single_rewrite_path : distinctOnReturnCount = 2 ∧ distinctOnClearsOnInPlace = false := by decide
+
 /-- PARTIAL (side condition: NO outer LIMIT/OFFSET; conclusion only as a BAG because the rewritten query has no
     outer ORDER BY): the rewritten DISTINCT ON query returns the rows of the original -/
 theorem eliminate_distinct_on_partial (key : Row → Val) (ord : Table → Table) (t : Table) :
